@@ -3,6 +3,7 @@ CONSTANTS
   Labels = {}
   Procs = {}
   Seeds = {}
+  Confs = {}
   Hists = {}
   Vias = {}
   MaxObs = 1000000
